@@ -20,17 +20,17 @@ type COp struct {
 func (o COp) String() string { return fmt.Sprintf("%s k=%d v=%d n=%d", o.Kind, o.K, o.V, o.N) }
 
 type CompCase struct {
-	Kind        string  `json:"kind"` // hashmap | mpsc | lossy | sketch
-	Parallelism int     `json:"par"`
-	HashMode    int     `json:"hash,omitempty"`
-	PoolMode    int     `json:"pool,omitempty"`
-	Size        int     `json:"size,omitempty"`    // hashmap: size hint; lossy: max stripes
-	Initial     int     `json:"initial,omitempty"` // mpsc initial capacity
-	Max         int     `json:"max,omitempty"`     // mpsc max capacity
-	Prefill     int     `json:"prefill,omitempty"`
-	Stable      int     `json:"stable,omitempty"` // hashmap: how many of the prefilled keys are never touched again
-	PreDelete   int     `json:"predelete,omitempty"`
-	Tasks       [][]COp `json:"tasks"`
+	Kind        string   `json:"kind"` // hashmap | mpsc | lossy | sketch
+	Parallelism int      `json:"par"`
+	HashMode    int      `json:"hash,omitempty"`
+	PoolMode    int      `json:"pool,omitempty"`
+	Size        int      `json:"size,omitempty"`    // hashmap: size hint; lossy: max stripes
+	Initial     int      `json:"initial,omitempty"` // mpsc initial capacity
+	Max         int      `json:"max,omitempty"`     // mpsc max capacity
+	Prefill     int      `json:"prefill,omitempty"`
+	Stable      int      `json:"stable,omitempty"` // hashmap: how many of the prefilled keys are never touched again
+	PreDelete   int      `json:"predelete,omitempty"`
+	Tasks       [][]COp  `json:"tasks"`
 	Seeds       []uint64 `json:"seeds,omitempty"`
 }
 
